@@ -55,10 +55,12 @@ func newDataStoreSet(l lane.Lane, basePath string, phook *DispatchHook) *dataSto
 					n := int(n64)
 					if parseErr == nil {
 						// found a data store file - load it
-						if n != 0 {
-							dss.createDbUnlocked(n)
+						ds, valid := dss.createDbUnlocked(n)
+						if !valid {
+							// not the index of a database: some other file
+							return nil
 						}
-						dsc := dss.dbs[n].newDataStoreCommand()
+						dsc := ds.newDataStoreCommand()
 						loadErr := dsc.load(l, path)
 						if loadErr != nil {
 							return loadErr
